@@ -17,12 +17,15 @@ RULE = ("pairs residue/residue and residue/point (1..6 atoms per residue, spread
         "column), general triclinic (a GROMACS box rotated by a random rotation); a boundary stream puts one coordinate of the "
         "separation at (k+1/2) L +- {1.5e-6, 1e-5, 1e-3} nm; the inverse flag is exercised with numpy's inverse as argument; "
         "K additionally: no box, exactly singular boxes (a zero row, a zero column, the zero matrix -> LinAlgError), the empty "
-        "residue (ValueError), dyadic exact ties in triclinic boxes (round-half-even observable); call histories: 2-4 consecutive "
+        "residue (ValueError), dyadic exact ties in triclinic boxes (round-half-even observable); call histories: 2-5 consecutive "
         "distance_to calls that share ONE point object (float64 ndarray / int64 ndarray / list / tuple), ONE box ndarray, ONE "
         "inverse-box ndarray and the Residue objects (1-3 residues, centres away from the origin; same or other residue as self, "
-        "point or residue argument; with box / inverse flag / without box): K feeds every call the values the arrays hold when it "
-        "starts, S requires the caller's arrays bit-identical after every call and every value equal to the oracle's for the inputs "
-        "handed over. A case is non-trivial when "
+        "point or residue argument; with box / inverse flag / without box, in runs with the same flag); before half of the later "
+        "calls the caller changes the shared box ndarray IN PLACE (box *= s with s in 0.7..1.4, 1 +- 2e-3, 2 or 0.5; box[:] = a "
+        "new box of any kind; a shear box[i,j] += delta) and writes the new inverse into the shared inverse-box ndarray in place, "
+        "or overwrites the shared point in place (ndarray and list forms); K feeds every call the values the arrays hold when it "
+        "starts, S requires the caller's arrays bit-identical after every call and every value equal to the oracle's for the "
+        "values the arrays held when that call started. A case is non-trivial when "
         "it is distinct and a box is given; the histogram records box kind, argument kind, inverse flag and whether the "
         "nearest image differs from the separation itself (wrapped).")
 
